@@ -9,6 +9,7 @@ package schema
 
 import (
 	"fmt"
+	"net/url"
 	"reflect"
 	"strconv"
 	"strings"
@@ -129,7 +130,7 @@ func (g *Generator) generateWithRefs(t reflect.Type) *openapi3.Schema {
 		// Return schema with reference in extensions.
 		schema := openapi3.NewObjectSchema()
 		schema.Extensions = map[string]interface{}{
-			"$ref": "#/$defs/" + typeName,
+			"$ref": defsRef(typeName),
 		}
 		return schema
 	}
@@ -155,7 +156,7 @@ func (g *Generator) generateWithRefs(t reflect.Type) *openapi3.Schema {
 	// Keep "type: object" at root level as MCP protocol validation requires it
 	refSchema := openapi3.NewObjectSchema()
 	refSchema.Extensions = map[string]interface{}{
-		"$ref": "#/$defs/" + typeName,
+		"$ref": defsRef(typeName),
 	}
 	return refSchema
 }
@@ -214,7 +215,7 @@ func (g *Generator) generateFieldSchemaWithRefs(t reflect.Type, field reflect.St
 			// Return schema with reference in extensions.
 			refSchema := openapi3.NewObjectSchema()
 			refSchema.Extensions = map[string]interface{}{
-				"$ref": "#/$defs/" + typeName,
+				"$ref": defsRef(typeName),
 			}
 			return refSchema
 		}
@@ -227,7 +228,7 @@ func (g *Generator) generateFieldSchemaWithRefs(t reflect.Type, field reflect.St
 		g.defs[typeName] = schema
 		refSchema := openapi3.NewObjectSchema()
 		refSchema.Extensions = map[string]interface{}{
-			"$ref": "#/$defs/" + typeName,
+			"$ref": defsRef(typeName),
 		}
 		return refSchema
 
@@ -276,6 +277,20 @@ func (g *Generator) generateTypeSchemaWithRefs(t reflect.Type) *openapi3.Schema 
 	default:
 		return convertPrimitiveType(t)
 	}
+}
+
+// refToken escapes one JSON Pointer reference token for use in the URI fragment of a "$ref":
+// "~" and "/" are escaped as "~0" and "~1" (RFC 6901, section 3), then every character that may
+// not appear literally in a fragment, "%" included, is percent-encoded (RFC 6901, section 6).
+func refToken(token string) string {
+	token = strings.ReplaceAll(token, "~", "~0")
+	token = strings.ReplaceAll(token, "/", "~1")
+	return url.PathEscape(token)
+}
+
+// defsRef returns the "$ref" value pointing at the $defs entry stored under typeName.
+func defsRef(typeName string) string {
+	return "#/$defs/" + refToken(typeName)
 }
 
 // getTypeName returns a readable type name for use in $defs.
@@ -946,9 +961,9 @@ func (g *NestedRefGenerator) generateStructSchema(t reflect.Type) *openapi3.Sche
 		// because the field will be wrapped in anyOf: [schema, null]
 		// So we need to adjust the path for child fields to reflect the actual JSON path
 		if isPointer && omitempty {
-			g.currentPath = append(g.currentPath, "properties", fieldName, "anyOf", "0")
+			g.currentPath = append(g.currentPath, "properties", refToken(fieldName), "anyOf", "0")
 		} else {
-			g.currentPath = append(g.currentPath, "properties", fieldName)
+			g.currentPath = append(g.currentPath, "properties", refToken(fieldName))
 		}
 
 		// Recursively generate field schema
